@@ -66,11 +66,17 @@ LegacySteps(c, ports) == IF ports = {} THEN <<>>
                               <<<<"lacq", "tcp", a>>, <<"lacq", "udp", a>>>> \o LegacySteps(c, ports \ {a})
 Steps(c) == (IF Len(c.legacy) > 0 THEN <<<<"lkeys">>>> ELSE <<>>) \o LegacySteps(c, LegacyPorts(c)) \o SvcSteps(c, 1)
 
+\* Address ids 14 ("0.0.0.0:port") and 15 ("[::]:port") are other spellings of the wildcard address of legacy port 4
+\* (":port"): different strings for Config.Validate and for the listener manager's books, the same socket for the kernel -
+\* binding one while another is held fails.
+Sock(l) == <<l[1], IF l[2] \in {14, 15} THEN 4 ELSE l[2]>>
+SockHeld(l, held) == \E x \in held : Sock(x) = Sock(l)
+
 StepFails(c, s, held, frn) ==
   CASE s[1] = "lkeys" -> \E i \in 1..Len(c.legacy) : KeyCS[c.legacy[i][2]] = 0
     [] s[1] = "keys"  -> \E k \in SeqToSet(c.svcs[s[2]].ks) : KeyCS[k] = 0
-    [] s[1] = "lacq"  -> <<s[2], s[3]>> \in frn \/ <<s[2], s[3]>> \in held       \* bind failure / listenerSet duplicate
-    [] s[1] = "acq"   -> <<s[3], s[4]>> \in frn \/ <<s[3], s[4]>> \in held
+    [] s[1] = "lacq"  -> <<s[2], s[3]>> \in frn \/ SockHeld(<<s[2], s[3]>>, held)       \* bind failure / listenerSet duplicate
+    [] s[1] = "acq"   -> <<s[3], s[4]>> \in frn \/ SockHeld(<<s[3], s[4]>>, held)
 
 StepHandle(c, s) ==
   CASE s[1] = "lacq" -> {[l |-> <<s[2], s[3]>>, ks |-> LegacyKeysOf(c, s[3])]}
@@ -98,7 +104,7 @@ ListeningOf(c) == IF c = NoCfg THEN {} ELSE {h.l : h \in Run(c, 1, {}, {}).hs}
    Legacy keys are not validated. *)
 AllSvcListeners(c) == UNION {{<<i, j>> : j \in 1..Len(c.svcs[i].ls)} : i \in 1..Len(c.svcs)}
 LnAt(c, x) == c.svcs[x[1]].ls[x[2]]
-ValidCfg(c) == /\ \A x \in AllSvcListeners(c) : LnAt(c, x)[1] \in {"tcp", "udp"} /\ LnAt(c, x)[2] < 10
+ValidCfg(c) == /\ \A x \in AllSvcListeners(c) : LnAt(c, x)[1] \in {"tcp", "udp"} /\ LnAt(c, x)[2] \notin {11, 12, 13}
                /\ \A x, y \in AllSvcListeners(c) : x # y => LnAt(c, x) # LnAt(c, y)
 Loadable(c) == c.kind = "ok" /\ ValidCfg(c)
 
